@@ -523,7 +523,7 @@ def _csp():
 
 
 def _nel():
-    group = st.one_of(st.sampled_from(['network-errors', 'default', 'nel']),
+    group = st.one_of(st.sampled_from(['network-errors', 'default', 'nel', '=x', 'a=b', '==']),
                       st.text(alphabet=QDTEXT + ' ', min_size=1, max_size=12),
                       # JSON strings are Unicode; on the wire (an ASCII header) they travel as \uXXXX escapes
                       st.sampled_from(['r\u00e9seau-errors', '\u65e5\u672c\u8a9e', 'gr\u00fc\u00dfe', 'a\u2028b']))
